@@ -3,6 +3,8 @@
 package executor
 
 import (
+	"fmt"
+
 	"github.com/meshplus/bitxhub-kit/types"
 	"github.com/meshplus/bitxhub-model/pb"
 )
@@ -14,3 +16,16 @@ type zzTx struct {
 }
 
 func (t *zzTx) GetFrom() *types.Address { return t.from }
+
+// zzSigTx is a transfer whose signature check has a harness-chosen outcome.
+type zzSigTx struct {
+	pb.BxhTransaction
+	bad bool
+}
+
+func (t *zzSigTx) VerifySignature() error {
+	if t.bad {
+		return fmt.Errorf("invalid signature")
+	}
+	return nil
+}
